@@ -238,6 +238,12 @@ class Interp:
         av = e.outvars[0].aval
         return self.sym(f"empty{self.n_empty}", av.shape, av.dtype)
 
+    def p_stage(self, e, x):
+        return x                   # host value staged to the device (eager-mode recordings)
+
+    def p_device_put(self, e, *xs):
+        return list(xs) if len(xs) != 1 else xs[0]
+
     def p_copy(self, e, x):
         return x
 
